@@ -515,7 +515,7 @@ class C05Check(PoolCheckBase):
         d = len(sc["X"][0])
         ops = []
         for _ in range(g.pick([2, 3, 4, 6])):
-            op = {"label": g.chance(0.6), "batch": g.pick([1, 1, 2, 3]), "prefit": g.chance(0.3), "ru": g.chance(0.5)}
+            op = {"label": g.chance(0.6), "batch": g.pick([1, 1, 2, 3]), "prefit": g.chance(0.3) and not e["flags"].get("noprefit"), "ru": g.chance(0.5)}
             if "sample_weight" in ps and g.chance(0.4):
                 op["sw"] = [round(g.uniform(0.1, 2.0), 3) for _ in range(n)]
             if "utility_weight" in ps and g.chance(0.4):
@@ -523,7 +523,7 @@ class C05Check(PoolCheckBase):
             r = g.random()
             if r < 0.2:
                 op["cand"] = "idx"
-            elif r < 0.3 and e["flags"].get("rows", True):
+            elif r < 0.32 and e["flags"].get("rows", True):
                 op["cand"] = "rows"
             else:
                 op["cand"] = "none"
@@ -567,6 +567,7 @@ class C05Check(PoolCheckBase):
         per = sc["oracle"]["per_sample"]
         cond = {"entry": sc["entry"]}
         aborted = False
+        raised = ok_ops = 0
         for t, op in enumerate(sc["ops"]):
             if sc.get("swap_data") and t == len(sc["ops"]) // 2 and t > 0:
                 X = np.array(sc["X2"], dtype=float)
@@ -584,12 +585,13 @@ class C05Check(PoolCheckBase):
             kw = {}
             if isinstance(op.get("sw"), list) and "sample_weight" in w.params:
                 kw["sample_weight"] = np.resize(np.array(op["sw"], dtype=float), n)
-            if isinstance(op.get("uw"), list) and "utility_weight" in w.params:
-                kw["utility_weight"] = np.resize(np.array(op["uw"], dtype=float), n)
             if op.get("cand") == "idx":
                 kw["candidates"] = unl[:: 2 if len(unl) > 2 else 1].copy()
             elif op.get("cand") == "rows":
                 kw["candidates"] = X[unl].copy()
+            if isinstance(op.get("uw"), list) and "utility_weight" in w.params:
+                # documented length: n_samples, or n_candidates for feature-row candidates
+                kw["utility_weight"] = np.resize(np.array(op["uw"], dtype=float), len(unl) if op.get("cand") == "rows" else n)
             if kw:
                 ctx.fault("optional_args")
             prefit = bool(op.get("prefit")) and w.arg and w.fitflag
@@ -610,7 +612,8 @@ class C05Check(PoolCheckBase):
                 # feature-row candidates / weights are not supported by every strategy: retry is pointless, the
                 # property does not speak about exceptions
                 ctx.notes.append(f"op {t}: query raised {type(ex).__name__}: {str(ex)[:100]}")
-                aborted = True
+                ctx.probe("op_raised")
+                raised += 1
                 res = None
             ctx.log.add("query", res if res is None or not op.get("ru") else res[0])
             # ---- frame monitor
@@ -647,8 +650,11 @@ class C05Check(PoolCheckBase):
                     pickle.dumps(qs)
                 except Exception as ex:
                     ctx.violate("pickle-broken", subj, f"op {t}: pickle.dumps(strategy) fails after query: {type(ex).__name__}: {str(ex)[:120]}", cond)
-            if ctx.violations or aborted:
+            if ctx.violations:
                 break
+            if res is None:
+                continue  # the frame conditions were still judged; the next operation runs on unchanged labels
+            ok_ops += 1
             idx = np.asarray(res[0] if op.get("ru") else res).astype(int).ravel()
             if op.get("cand") == "rows":
                 idx = unl[idx[idx < len(unl)]]
@@ -660,6 +666,7 @@ class C05Check(PoolCheckBase):
                 ctx.fault("requery_without_labelling")
             ctx.sim_time += 1
         sig = "|".join([sc["entry"], str(sc["model"]), ",".join(sorted(ctx.faults)), ",".join(sorted(ctx.probes))])
+        aborted = ok_ops == 0
         return ctx.result(sig=sig, extra={"aborted": aborted and not ctx.violations, "notes": ctx.notes[:3]})
 
     def nontrivial(self, res):
